@@ -25,29 +25,22 @@ theorem textOkU_none (rs : List (Range Ver)) : TextOkU rs none := by
   intro c hc; cases hc
 
 theorem Range.and_ok (s o r : Range Ver) (hs : TextOk s) (ho : TextOk o) (h : s.and o = some r) : TextOk r := by
-  unfold Range.and at h
-  split at h
-  · cases h; exact ho
-  · split at h
-    · cases h; exact hs
-    · split at h
-      · cases h
-      · cases h; exact textOk_of_none _ rfl
+  simp only [Range.and] at h
+  cases h1 : s.isSuperset o <;> cases h2 : o.isSuperset s <;> cases h3 : s.allowsLower o <;>
+    cases h4 : s.allowsHigher o <;> cases h5 : s.isStrictlyLower o <;> cases h6 : o.isStrictlyLower s <;>
+    simp [h1, h2, h3, h4, h5, h6] at h <;>
+    (subst h; first | exact ho | exact hs | exact textOk_of_none _ rfl)
 
 theorem Range.or_ok (s o : Range Ver) (hs : TextOk s) (ho : TextOk o) :
     match s.or o with
     | .one r => TextOk r
     | .two a b => TextOk a ∧ TextOk b := by
-  unfold Range.or
-  split
-  · exact hs
-  · split
-    · exact ho
-    · split
-      · exact ⟨hs, ho⟩
-      · split
-        · exact ⟨ho, hs⟩
-        · exact textOk_of_none _ rfl
+  simp only [Range.or]
+  cases h1 : s.isSuperset o <;> cases h2 : o.isSuperset s <;> cases h3 : s.allowsLower o <;>
+    cases h4 : s.allowsHigher o <;> cases h5 : s.isStrictlyLower o <;> cases h6 : o.isStrictlyLower s <;>
+    cases h7 : s.isAdjacentTo o <;> cases h8 : o.isAdjacentTo s <;>
+    simp <;>
+    first | exact hs | exact ho | exact ⟨hs, ho⟩ | exact ⟨ho, hs⟩ | exact textOk_of_none _ rfl
 
 theorem andProduct_ok (xs ys : List (Range Ver)) (hx : ∀ r ∈ xs, TextOk r) (hy : ∀ r ∈ ys, TextOk r) :
     ∀ r ∈ andProduct xs ys, TextOk r := by
@@ -148,5 +141,157 @@ theorem or_textInv (a b res : Spec Ver) (ha : TextInv a) (hb : TextInv b) (h : a
   · rename_i xs xt o; exact unionOrRange_ok xs o ha.1 hb res h
   · rename_i xs xt ys yt; exact orFold_ok (.union xs xt) ys res ha hb.1 h
 
+theorem invert_textInv (a : Spec Ver) : TextInv a.invert := by
+  cases a with
+  | empty => trivial
+  | any => trivial
+  | range r =>
+    simp only [Spec.invert, invertRange]
+    split <;> first | trivial | exact textOk_of_none _ rfl |
+      exact ⟨by intro r hr; simp at hr; rcases hr with rfl | rfl <;> exact textOk_of_none _ rfl, textOkU_none _⟩
+  | union rs t =>
+    simp only [Spec.invert, invertUnion]
+    apply fromRanges_ok
+    intro r hr
+    apply textOk_of_none
+    simp only [List.mem_append] at hr
+    rcases hr with hr | hr
+    · cases rs with
+      | nil => simp at hr
+      | cons f _ =>
+        simp only [firstPiece] at hr
+        split at hr
+        · simp at hr
+        · simp at hr; subst hr; rfl
+    · -- every gap piece is fresh
+      have gaps_fresh : ∀ (l : List (Range Ver)), ∀ x ∈ gaps l, x.text = none := by
+        intro l
+        induction l with
+        | nil => intro x hx; simp [gaps] at hx
+        | cons a rest ih =>
+          intro x hx
+          cases rest with
+          | nil =>
+            simp only [gaps] at hx
+            split at hx
+            · simp at hx
+            · simp at hx; subst hx; rfl
+          | cons b rest' =>
+            simp only [gaps, List.mem_cons] at hx
+            rcases hx with rfl | hx
+            · rfl
+            · exact ih x hx
+      exact gaps_fresh rs r hr
+
+theorem Range.beq_refl' (r : Range Ver) : r.beq r = true := by
+  have rf := @LinPre.le_refl Ver _
+  rcases r with ⟨m, M, i, j, t⟩
+  cases m <;> cases M <;> simp [Range.beq, rf]
+
+/-- the parser caches the clause it has just parsed -/
+theorem fromClause_textInv (c : Clause Ver) (s : Spec Ver) (h : fromClause c = some s) : TextInv s := by
+  have mk : ∀ r : Range Ver, fromClause c = some (.range r) → r.text = some c → TextOk r := by
+    intro r hr ht c' hc'
+    rw [ht] at hc'; cases hc'
+    exact ⟨r, hr, Range.beq_refl' r⟩
+  have mkU : ∀ (a b : Range Ver), fromClause c = some (.union [a, b] (some c)) → a.text = none → b.text = none →
+      TextInv (.union [a, b] (some c)) := by
+    intro a b hu ha hb
+    refine ⟨by intro r hr; simp at hr; rcases hr with rfl | rfl; exact textOk_of_none _ ha; exact textOk_of_none _ hb, ?_⟩
+    intro c' hc'; cases hc'
+    exact ⟨[a, b], some c, hu, by simp [Spec.beq, Range.beq_refl']⟩
+  rcases c with ⟨op, v, w⟩
+  cases op <;> cases w <;> simp only [fromClause, Option.some.injEq, Option.map_eq_some_iff] at h
+  all_goals first
+    | (subst h; exact mk _ (by simp [fromClause]) rfl)
+    | (obtain ⟨mx, hmx, rfl⟩ := h; exact mk _ (by simp [fromClause, hmx]) rfl)
+    | (subst h; exact mkU _ _ (by simp [fromClause]) rfl rfl)
+    | (obtain ⟨mx, hmx, rfl⟩ := h; exact mkU _ _ (by simp [fromClause, hmx]) rfl rfl)
+
+theorem fromSpecifierSet_textInv (cs : List (Clause Ver)) (s : Spec Ver) (h : fromSpecifierSet cs = some s) : TextInv s := by
+  unfold fromSpecifierSet at h
+  have gen : ∀ (cs : List (Clause Ver)) (acc : Spec Ver), TextInv acc → ∀ s,
+      cs.foldl (fun acc c => acc.bind fun a => (fromClause c).map fun s => a.and s) (some acc) = some s → TextInv s := by
+    intro cs
+    induction cs with
+    | nil => intro acc ha s h; simp at h; subst h; exact ha
+    | cons c rest ih =>
+      intro acc ha s h
+      simp only [List.foldl_cons, Option.bind_some] at h
+      cases hc : fromClause c with
+      | none =>
+        rw [hc] at h
+        simp only [Option.map_none] at h
+        have : ∀ l : List (Clause Ver), l.foldl (fun (acc : Option (Spec Ver)) c => acc.bind fun a => (fromClause c).map fun s => a.and s) none = none := by
+          intro l; induction l with
+          | nil => rfl
+          | cons _ _ ih' => simpa using ih'
+        rw [this] at h; cases h
+      | some sc =>
+        rw [hc] at h
+        exact ih _ (and_textInv acc sc ha (fromClause_textInv c sc hc)) s h
+  exact gen cs (.range {}) (textOk_of_none _ rfl) s h
+
+/-- a version that is not a post-release -/
+def NoPost (v : Ver) : Prop := v.post = none
+
+/-- bounds without post-releases exclude the D4a rendering -/
+theorem noD4a_of_noPost (r : Range Ver) (h : BoundsIn NoPost (.range r)) : NoD4a r := by
+  intro _ mn mx _ hmax _
+  exact (boundsIn_range NoPost r h).2 mx hmax
+
+theorem invert_boundsIn {α : Type} [LinPre α] (P : α → Prop) (a : Spec α) (ha : BoundsIn P a) : BoundsIn P a.invert := by
+  obtain ⟨a', rfl⟩ := ha
+  exact ⟨a'.invert, (map_invert (subEmb P) a').symm⟩
+
 end Spec
+
+namespace C06
+open Spec
+
+/-- everything the operators build from good leaves: canonical, cached texts right, no post-release bound -/
+structure Nice (s : Spec Ver) : Prop where
+  canon : Canon s
+  text : TextInv s
+  noPost : BoundsIn NoPost s
+
+theorem nice_empty : Nice .empty := ⟨trivial, trivial, boundsIn_empty _⟩
+theorem nice_any : Nice .any := ⟨trivial, trivial, boundsIn_any _⟩
+
+theorem nice_and (a b : Spec Ver) (ha : Nice a) (hb : Nice b) : Nice (a.and b) :=
+  ⟨and_canon _ _ ha.canon hb.canon, and_textInv _ _ ha.text hb.text, and_boundsIn _ _ _ ha.noPost hb.noPost⟩
+
+theorem nice_or (a b r : Spec Ver) (ha : Nice a) (hb : Nice b) (h : a.or b = some r) : Nice r := by
+  obtain ⟨r', h1, h2, _⟩ := or_spec a b ha.canon hb.canon
+  rw [h] at h1; cases h1
+  exact ⟨h2, or_textInv _ _ _ ha.text hb.text h, or_boundsIn _ _ _ _ ha.noPost hb.noPost h⟩
+
+theorem nice_invert (a : Spec Ver) (ha : Nice a) : Nice a.invert :=
+  ⟨invert_canon _ ha.canon, invert_textInv a, invert_boundsIn _ _ ha.noPost⟩
+
+/-- a nice object renders to text that denotes an `==` object -/
+theorem nice_roundtrips (s : Spec Ver) (nice : Nice s) : RoundTrips s := by
+  apply roundtrips s nice.canon
+  · intro r hr
+    rcases hr with rfl | ⟨rs, t, rfl, hrm⟩
+    · exact ⟨nice.text, noD4a_of_noPost r nice.noPost⟩
+    · refine ⟨nice.text.1 r hrm, ?_⟩
+      intro _ mn mx _ hmax _
+      exact ((boundsIn_union NoPost rs t nice.noPost) r hrm).2 mx hmax
+  · intro rs t hs
+    subst hs
+    exact nice.text.2
+
+/-- **C06 for everything reachable**: objects built by `&`, `|`, `~` from nice leaves (what the parser
+    yields from clauses without post-release versions) render to text that denotes an `==` object -/
+theorem reach_roundtrips {Leaf : Spec Ver → Prop} (hleaf : ∀ s, Leaf s → Nice s) {s : Spec Ver}
+    (h : C01.Reach Leaf s) : RoundTrips s := by
+  apply nice_roundtrips
+  induction h with
+  | leaf hl => exact hleaf _ hl
+  | and _ _ iha ihb => exact nice_and _ _ iha ihb
+  | or _ _ hr iha ihb => exact nice_or _ _ _ iha ihb hr
+  | invert _ ih => exact nice_invert _ ih
+
+end C06
 end DepLogic
